@@ -1332,7 +1332,7 @@ func (lg *ledger) boundFacts(b *ssa.BasicBlock) (out []diffC) {
 			if yb != "0" {
 				continue
 			}
-			c := yo - xo // xb != c
+			c := yo - xo                   // xb != c
 			if entails(out, "0", xb, -c) { // xb >= c
 				out = append(out, diffC{"0", xb, -(c + 1)})
 			}
